@@ -79,7 +79,7 @@ func (l *LineFilterPlanner) doLike(likeOp string, val string) (sql.SQLCondition,
 		return nil, err
 	}
 	return sql.Eq(
-		sql.NewRawObject(fmt.Sprintf("%s(samples.string, %s)", likeOp, enqVal)), sql.NewIntVal(1),
+		sql.NewRawObject(fmt.Sprintf("%s(string, %s)", likeOp, enqVal)), sql.NewIntVal(1),
 	), nil
 }
 
